@@ -1856,6 +1856,56 @@ package gorums
 // given (C10 metadata, C06/C18 send-waiting, C12/C14 no-connect); the connection flags are 0/1
 // cells written and read atomically (C09.f, C10.e rest on set/clear/get meaning what they say).
 
+// Construction (C12, C14, C10, C04): a new manager starts with an empty pool and lookup table, default
+// options (no send buffer, connect on creation, no metadata) and applies every option given exactly once,
+// in order, to ITS OWN option record; a new server applies every option exactly once to the record its
+// per-connection loop later reads (connect callback C10.d, reply buffer C04.f), starts with an empty,
+// non-nil handler table and registers exactly that ordering server with gRPC.
+//@ func newManagerOptions
+//@   props C12 C14 C03 C10
+//@   ensures[C12.g] result.sendBuffer == 0 && !result.noConnect && result.metadata == nil && result.perNodeMD == nil && result.logger == nil && len(result.grpcDialOpts) == 0
+
+//@ func NewRawManager
+//@   props C12 C14 C10
+//@   ghost napplied Int = 0
+//@   on call "opt"
+//@     assert[C12.g] napplied == idx - 1 && fieldaddr(arg0, m, "opts")
+//@     set napplied = napplied + 1
+//@   loop "for _, opt := range opts"
+//@     invariant[C12.g] napplied == idx
+//@     invariant m != nil && !wasalloc(m) && m.lookup != nil && !wasalloc(m.lookup) && len(m.nodes) == 0 && forall(id, !in(id, m.lookup))
+//@   ensures[C14.f] result != nil && !wasalloc(result) && result.lookup != nil && len(result.nodes) == 0 && forall(id, !in(id, result.lookup))
+//@   ensures[C12.g] napplied == len(opts)
+//@   ensures[C12.g] result.logger == result.opts.logger
+
+//@ func newOrderingServer
+//@   props C04 C10
+//@   ensures[C04.h] result != nil && !wasalloc(result) && result.opts == opts && result.handlers != nil && forall(k, "Str", !in(k, result.handlers))
+
+//@ func WithReceiveBufferSize$1
+//@   props C04
+//@   requires o != nil
+//@   ensures[C04.f] o.buffer == size && o.connectCallback == old(o.connectCallback)
+
+//@ func WithConnectCallback$1
+//@   props C10
+//@   requires so != nil
+//@   ensures[C10.d] so.connectCallback == callback && so.buffer == old(so.buffer)
+
+//@ func NewServer
+//@   props C04 C10
+//@   ghost napplied Int = 0
+//@   on call "opt"
+//@     assert[C10.d] napplied == idx - 1 && arg0 == addr(serverOpts)
+//@     set napplied = napplied + 1
+//@   loop "for _, opt := range opts"
+//@     invariant[C10.d] napplied == idx
+//@   on call "newOrderingServer"
+//@     assert[C10.d] napplied == len(opts) && arg0 == addr(serverOpts)
+//@   on call "ordering.RegisterGorumsServer"
+//@     assert[C04.h] arg1 == iface("*orderingServer", s.srv) && s.srv != nil && arg0 == iface("*grpc.Server", s.grpcServer)
+//@   ensures[C04.h] result != nil && result.srv != nil && result.srv.handlers != nil && result.srv.opts != nil
+
 //@ func WithMetadata$1
 //@   props C10
 //@   requires o != nil
